@@ -213,3 +213,18 @@ def show(t, depth=0):
     if k == "multi":
         return "{" + " | ".join(show(a, depth + 1) for a in t[1]) + "}"
     return "%s?" % (k,)
+
+
+def const_value(t):
+    """Decoded value of a ('const', v, ..) or ('namedconst', path, v, ..) term; None otherwise."""
+    if not isinstance(t, tuple):
+        return None
+    if t[0] == "const":
+        return t[1]
+    if t[0] == "namedconst":
+        return t[2]
+    return None
+
+
+def is_const(t):
+    return isinstance(t, tuple) and t[0] in ("const", "namedconst")
